@@ -521,6 +521,12 @@ func (p *Proxy) handle(ctx *Context, conn net.Conn, brw *bufio.ReadWriter) error
 	}
 
 	if req.Method == "CONNECT" {
+		// What is written from here on (the answer to CONNECT, a tunnel's or a
+		// TLS session's bytes) is not a response of the previous exchange: it
+		// must not be shaped by the context that exchange left behind.
+		if ptsconn, ok := conn.(*trafficshape.Conn); ok {
+			ptsconn.Context = &trafficshape.Context{}
+		}
 		return p.handleConnectRequest(ctx, req, session, brw, conn)
 	}
 
